@@ -362,8 +362,9 @@ def inherited(w, p2, db, dialect, o2, under):
     for f in _FCACHE[prop0]:
         if f.matches(v):
             return "inherits:" + f.id
-    if prop0 == "C01":
-        # C04 files the same symptoms of window programs under its own id
+    if prop0 in ("C01", "C03"):
+        # C04 files the same symptoms of window programs under its own id (a window value that is the same
+        # multiset over the rows but lands on other rows is seen as an order difference)
         if "C04" not in _FCACHE:
             _FCACHE["C04"] = core.load_findings("C04")
         for f in _FCACHE["C04"]:
